@@ -25,7 +25,7 @@ def gen_params(rng, idx, tier="quick", txn=None):
     if txn:
         magics = (2,) if rng.random() < 0.8 else (1, 2)
     iso = rng.choice(["read_uncommitted", "read_committed"]) if txn else "read_uncommitted"
-    return {
+    P = {
         "idx": idx, "seed": rng.randrange(2**31),
         "n_parts": rng.choice([1, 2, 3]),
         "n_batches": rng.choice([6, 10, 16, 24]) if tier == "quick" else rng.choice([8, 16, 30, 50]),
@@ -53,7 +53,18 @@ def gen_params(rng, idx, tier="quick", txn=None):
         "check_crcs": rng.random() < 0.8,
         "trim_frac": rng.choice([0.0, 0.0, 0.2, 0.5]),     # log start > 0: positions below it are out of range
         "getone_only": rng.random() < 0.25,                 # consume (and drain) through getone() alone
+        # replies of all brokers arrive on a common time lattice (several fetch replies complete in one loop pass)
+        "reply_quantum": rng.choice([None, None, 0.01, 0.05]),
+        # drain through ONE getone() call per record that is allowed to block for the whole retry bound: a wake-up
+        # lost while the record already sits in the fetch buffer is not repaired by calling again
+        "patient_drain": rng.random() < 0.35,
     }
+    if P["patient_drain"] and rng.random() < 0.7:
+        # leave most of the log for the drain phase, spread over at least two brokers
+        P["n_ops"] = 15
+        P["n_parts"] = max(2, P["n_parts"])
+        P["reply_quantum"] = P["reply_quantum"] or 0.01
+    return P
 
 
 def run_history(P):
@@ -62,6 +73,9 @@ def run_history(P):
 
     rng = random.Random(P["seed"])
     net, cl = make_cluster(P["seed"], n_brokers=3, versions={1: (0, P["fetch_max_version"])})
+    if P.get("reply_quantum"):
+        net.quantum = P["reply_quantum"]
+        net.fragment = False
     cl.create_topic(TOPIC, P["n_parts"])
     cl.fetch_one_batch = P["fetch_one_batch"]
     cl.partial_tail = P["partial_tail"]
@@ -214,12 +228,16 @@ def run_history(P):
         # stop early only after a silence several request timeouts long (a fetch whose reply was lost just
         # before the quiet point needs request_timeout to be retried)
         idle_limit = int(3 * P["request_timeout_ms"] / 300.0) + 5
+        patient = bool(P.get("patient_drain"))
+        patience = 3 * P["request_timeout_ms"] / 1000.0 + 2.0
+        if patient:
+            idle_limit = 1
         while loop.time() - t_drain < bound and idle < idle_limit:
-            if P.get("getone_only"):
-                e = log(-1, "getone.call", parts=[])
+            if P.get("getone_only") or patient:
+                e = log(-1, "getone.call", parts=[], patient=patient)
                 try:
                     with owned("consumer"):
-                        m = await asyncio.wait_for(cons.getone(), 0.3)
+                        m = await asyncio.wait_for(cons.getone(), patience if patient else 0.3)
                     log(-1, "getone", parts=[], recs=[rec(m)], call=e["n"])
                     idle = 0
                 except asyncio.TimeoutError:
@@ -268,7 +286,7 @@ def run_history(P):
             "aborted": pl.aborted,
             "classes": record_classes(pl),
         }
-    H["fetches"] = [{k: e.get(k) for k in ("t", "topic", "partition", "error", "fetch_offset", "n_bytes", "batches", "isolation")}
+    H["fetches"] = [{k: e.get(k) for k in ("t", "node", "topic", "partition", "error", "fetch_offset", "n_bytes", "batches", "isolation")}
                     for e in cl.events if e["kind"] == "fetch_reply"]
     H["fault_hits"] = dict(plan.hits)
     H["sim_errors"] = [e for e in cl.events if e["kind"] in ("SIM_ENCODE_ERROR", "undecodable_request", "bad_header",
@@ -394,6 +412,26 @@ def judge_cursor(H, want_stats=True):
             else:
                 st["drained_partitions"] += 1
     st["_cursors"] = {str(p): cursor.get(p, 0) for p in vis}
+    P = H["params"]
+    st["patient_drain_histories"] = 1 if P.get("patient_drain") else 0
+    st["patient_getone_records"] = sum(1 for e in H["events"] if e["op"] == "getone" and e["task"] == -1 and e.get("recs")
+                                       and P.get("patient_drain"))
+    st["reply_lattice_histories"] = 1 if P.get("reply_quantum") else 0
+    # observation: fetch replies of different brokers (one with data, one without) that reached the client in the
+    # same loop pass (same lattice cell)
+    st["coincident_data_and_empty_fetch_replies"] = 0
+    if P.get("reply_quantum"):
+        import math
+        cells = {}
+        for f in H.get("fetches", []):
+            if f.get("t") is None:
+                continue
+            cells.setdefault(math.ceil(f["t"] / P["reply_quantum"] + 1e-9), []).append(f)
+        for fs in cells.values():
+            nodes_data = {f.get("node") for f in fs if f.get("n_bytes")}
+            nodes_empty = {f.get("node") for f in fs if not f.get("n_bytes")}
+            if nodes_data and nodes_empty and len(nodes_data | nodes_empty) > 1:
+                st["coincident_data_and_empty_fetch_replies"] += 1
     # seeks that overlapped an in-flight fetch (for the non-triviality rule)
     calls = {}
     for e in H["events"]:
